@@ -147,22 +147,35 @@ def dump (s : State) : String :=
 
 def digest (s : State) : String := Hex.toHex ((Sha256.sha256 (dump s).toUTF8.toList).take 6)
 
+/-- outcome line of one executed op; `shown` is the state whose digest is printed -/
+def outcome (s : State) (op : Op) (dry : Bool) : State × String :=
+  match exec Sha256.sha256 s op with
+  | .ok o =>
+    let shown := if dry then s else o.st
+    match op with
+    | .key _ _ => (o.st, "ok")
+    | .height _ => (o.st, "ok")
+    | .restart => (o.st, "ok")
+    | _ => (shown, "ok:" ++ o.ret ++ " " ++ untok (joinWith "," o.events) ++ " " ++ digest shown)
+  | .error .err => (s, "err " ++ digest s)
+  | .error .panic => (s, "panic " ++ digest s)
+
+def dryable : List String → Bool
+  | [] => false
+  | t :: _ => !(["key", "height", "dump", "dry", "admit", "refresh", "restart"].contains t)
+
 def step (s : State) (toks : List String) : State × String :=
   match toks with
   | ["dump"] => (s, dump s)
+  | "dry" :: rest =>
+    if !dryable rest then (s, "bad-op") else
+    match parse rest with
+    | none => (s, "dry bad-op")
+    | some op => (s, "dry " ++ (outcome s op true).2)
   | _ =>
     match parse toks with
     | none => (s, "bad-op")
-    | some op =>
-      match exec Sha256.sha256 s op with
-      | .ok o =>
-        match op with
-        | .key _ _ => (o.st, "ok")
-        | .height _ => (o.st, "ok")
-        | .restart => (o.st, "ok")
-        | _ => (o.st, "ok:" ++ o.ret ++ " " ++ untok (joinWith "," o.events) ++ " " ++ digest o.st)
-      | .error .err => (s, "err " ++ digest s)
-      | .error .panic => (s, "panic " ++ digest s)
+    | some op => outcome s op false
 
 end GovDrv
 
